@@ -310,21 +310,22 @@ def _record_map(arg):
             continue
         n = node.get_child_count()
         cols = list(range(len(enf)))
-        if mode == 'syn':
-            # signatures only: is_syntax_valid once per distinct (enforced entry, element count) of this map
+        if mode in ('syn', 'sigfull'):
+            # signatures only: is_syntax_valid (sigfull: and segment_if.is_valid) once per distinct (enforced entry, element count) of this map
             cols = [y for y in cols if (enf[y][0], tuple(enf[y][1]), n) not in seen_sig]
             seen_sig.update((enf[y][0], tuple(enf[y][1]), n) for y in cols)
         poslists = [enf[y][1] for y in cols]
         if mode == 'full':
             # the patterns of the notes the XML writes are tried whether or not the loaded node enforces them
             poslists += [p for p in (mentioned(t) for t in xn) if p and p not in poslists]
+        through_is_valid = mode == 'full' or (mode == 'sigfull' and bool(cols))
         children = {c.seq: c for c in node.children}
         cases = []
         for (length, present, fill) in cases_for_node(node, poslists, n, mode, opts, rnd):
             values = {p: sample_value(children[p]) for p in present if p in children}
             if len(values) != len(present):
                 raise vlib.MachineryError('%s %s: no element node for a position <= element count' % (fname, node.get_path()))
-            c = observe_case(node, [enf[y][2] for y in cols], length, values, mode == 'full')
+            c = observe_case(node, [enf[y][2] for y in cols], length, values, through_is_valid)
             if c.get('chk') is False:
                 skipped += 1
             c.update({'len': length, 'pr': sorted(present), 'fill': fill})
@@ -332,7 +333,7 @@ def _record_map(arg):
             cases.append(c)
             if terrs is not None:
                 cases.append(dict(c, errs=terrs, text=c['text'] + '  [reported through err_handler]'))
-        recs.append({'map': fname, 'path': node.get_path(), 'idx': idx, 'seg': node.id, 'n': n, 'mode': mode,
+        recs.append({'map': fname, 'path': node.get_path(), 'idx': idx, 'seg': node.id, 'n': n, 'mode': 'full' if through_is_valid else 'syn',
                      'xnotes': xn, 'enf': [{'stype': st, 'spos': sp} for (st, sp, _s) in enf],
                      'cols': [y + 1 for y in cols], 'cases': cases})
     return {'map': fname, 'loaded': True, 'segs': recs, 'skipped': skipped}
@@ -353,7 +354,9 @@ def record_table(tier):
     else:
         chosen = set(files)
         opts = {'fill': True, 'combined': 62}
-    res = vlib.parallel_map(_record_map, [(f, 'full' if f in chosen else 'syn', opts) for f in files])
+    # every other map: segment_if.is_valid once per distinct (note, element count) of the map - a note that reaches past the
+    # elements its segment defines (830) or sits on a one-element segment is a signature of its own
+    res = vlib.parallel_map(_record_map, [(f, 'full' if f in chosen else 'sigfull', opts) for f in files])
     # quick tier: keep the is_syntax_valid cases of one record per distinct (enforced entry, element count) over all
     # maps; every record stays in the log (XML notes against what the loaded node enforces), with or without cases
     seen = set()
